@@ -268,8 +268,16 @@ def _id_only_keys_a_memo(m, call) -> bool:
         return False
     for n_ in ast.walk(fn):
         # any enumeration of the holder (iteration, items/keys/values, sorted/list/len-independent copies) lets order or keys out
-        if isinstance(n_, (ast.For, ast.comprehension)) and any(isinstance(x, ast.Name) and x.id == holder for x in ast.walk(n_.iter)):
+        if isinstance(n_, (ast.For, ast.comprehension)) and (
+                (isinstance(n_.iter, ast.Name) and n_.iter.id == holder)
+                or (isinstance(n_.iter, ast.Call) and isinstance(n_.iter.func, ast.Attribute)
+                    and isinstance(n_.iter.func.value, ast.Name) and n_.iter.func.value.id == holder)):
             return False
+        # handed on to another function: only to this very function (recursion); anything else may enumerate it
+        if isinstance(n_, ast.Call) and any(isinstance(a, ast.Name) and a.id == holder for a in list(n_.args) + [k.value for k in n_.keywords]):
+            dn_ = dotted(n_.func) or ""
+            if dn_ != fn.name and dn_ not in ("len", "bool", "isinstance"):
+                return False
         if isinstance(n_, ast.Call):
             dn = dotted(n_.func) or ""
             if dn in (f"{holder}.items", f"{holder}.keys", f"{holder}.values", f"{holder}.popitem"):
@@ -681,10 +689,28 @@ def produced_keys(idx: Index, m: Module, fn, iter_expr, bindings=None):
                            if isinstance(r_, ast.Return) and r_.value is not None}
                     return next(iter(got)) if len(got) == 1 else None
                 return None
+            # which names hold the mapping that is returned: the callee's own returned name(s), and helper parameters that
+            # receive it (`_file_away(stem, samples, shelf)`); stores into any other mapping (a message being assembled)
+            # are not file names
+            result_names = {id(f2): set(n_ for n_ in returned if n_)}
+            for _round in range(3):
+                for fx in scope:
+                    for cx in calls_in(fx):
+                        dx = (dotted(cx.func) or "").split(".")[-1]
+                        g = by_name.get(dx)
+                        if g is None or id(g) not in seen_fn:
+                            continue
+                        prm = [a_.arg for a_ in g.args.args]
+                        for pn, a_ in list(zip(prm, cx.args)) + [(k_.arg, k_.value) for k_ in cx.keywords if k_.arg]:
+                            if isinstance(a_, ast.Name) and a_.id in result_names.get(id(fx), ()):
+                                result_names.setdefault(id(g), set()).add(pn)
             for st in walk_nodes:
                 if isinstance(st, ast.Assign) and isinstance(st.targets[0], ast.Subscript):
                     key = st.targets[0].slice
                     base_is_result = dotted(st.targets[0].value) in returned
+                    if dotted(st.targets[0].value) not in result_names.get(id(owner[id(st)]), ()) and not base_is_result \
+                            and any(result_names.values()):
+                        continue
                     suf = str_suffix(key, owner[id(st)])
                     if suf is not None:
                         sufs.add(suf)
